@@ -1,7 +1,7 @@
 """C06 - NTT is the discrete Fourier transform over the field; INTT is its inverse."""
 ID = "C06"
 GEN_TAGS = ["BFieldGen"]
-PROOF_TARGETS = ["proofs/NttNoswap.vo"]
+PROOF_TARGETS = ["proofs/NttNoswap.vo", "proofs/XFieldNtt.vo"]
 PROPS_FILE = "props/C06.v"
 EXTRACT = "extract/ExtractC06.vo"
 ORACLE = ("gen_c06", "c06.ml")
